@@ -373,6 +373,11 @@ pub fn check_step(cx: &StepCtx) -> Vec<Violation> {
     // ---------------------------------------------------------------- C10: privileged messages
     if let Op::Tx { sender, target, call, .. } = op {
         if let Some(false) = authorised(cx.chain_pre, *sender, *target, call) {
+            // the addressed handler itself must refuse (not merely something further down the
+            // transaction): the first trace token is the top-level message, `!` = refused
+            if !ok && cx.chain_post.trace.first().map(|t| !t.ends_with('!')).unwrap_or(false) {
+                out.push(v("C10", &format!("unauthorised-accepted-by-handler:{}", kind), format!("{} by {} (not a principal) was accepted by the handler; the transaction failed only later: {}", kind, sender, cx.err)));
+            }
             if ok {
                 out.push(v("C10", &format!("unauthorised-succeeded:{}", kind), format!("{} by {} (not a principal) succeeded", kind, sender)));
             }
@@ -1094,6 +1099,20 @@ pub fn check_step(cx: &StepCtx) -> Vec<Violation> {
                 out.push(v("C17", &format!("zero-transfer:{}", site), format!("{}: dispatch failed (keeper rate {}); zero-amount bank send", kind, pre.keeper_rate)));
                 out.push(v("C19", &format!("zero-transfer:{}", site), format!("{}: index update failed with stake bonded (keeper rate {})", kind, pre.keeper_rate)));
             }
+        }
+    }
+
+    // the dispatcher overdraws its own account (a swap offering coins it has not received yet, a
+    // transfer of more than it holds): the bank refuses and the whole index update fails
+    if matches!(kind, "hub.ugi" | "reg.remove" | "reg.redelegations") && !ok && cx.envelope {
+        let in_dispatcher = cx.effects.iter().any(|e| matches!(e, Effect::Wasm { target, .. } if *target == DISP));
+        let authorised_sender = match op {
+            Op::Tx { sender, target, call, .. } => authorised(cx.chain_pre, *sender, *target, call) != Some(false),
+            _ => false,
+        };
+        if in_dispatcher && authorised_sender && cx.err.starts_with("insufficient funds") && pre.raw[2] + pre.raw[3] > 0 && !pre.paused {
+            out.push(v("C17", "dispatcher-overdraws", format!("{}: a message of the dispatcher was refused by the bank: {}", kind, cx.err)));
+            out.push(v("C19", "index-update-failed:insufficient-funds", format!("{}: index update failed with stake bonded: {}", kind, cx.err)));
         }
     }
 
